@@ -1,0 +1,5 @@
+//go:build !verif
+
+package litestream
+
+func verifPhase(*DB, string) {}
